@@ -650,7 +650,8 @@ def call_extern(I, fn, args, kwargs):
             for x in I.iterate(v):
                 acc = binop(I, ast.Add(), acc, x)
             return acc
-        if nm in ("set",):
+        if nm in ("set", "frozenset"):
+            # (a frozenset is used as a constant membership table: the mutating methods it lacks are never called on it)
             s = _i.PySet()
             if args:
                 for x in I.iterate(args[0]):
@@ -743,10 +744,18 @@ def call_extern(I, fn, args, kwargs):
         v = args[0]
         if isinstance(v, (int, float)):
             import math
-            return getattr(math, nm)(v)
+            try:
+                return getattr(math, nm)(v)
+            except OverflowError:
+                I.raise_("OverflowError", "int too large to convert to float")
         if isinstance(v, SFloat):
             return v.isfinite() if nm == "isfinite" else v.isnan()
-        if isinstance(v, (SInt, SReal)):
+        if isinstance(v, SInt):
+            # math.isfinite / isnan convert an int to a C double first: OverflowError from 2**1024 on
+            if I.ctx.branch(SBool(z3.Or(v.t >= 2 ** 1024, v.t <= -(2 ** 1024)))):
+                I.raise_("OverflowError", "int too large to convert to float")
+            return nm == "isfinite"
+        if isinstance(v, SReal):
             return nm == "isfinite"
         I.raise_("TypeError", nm)
     if p == "datetime.datetime.strptime":
